@@ -96,9 +96,11 @@ def record(src):
 
     for digits in itertools.product(range(3), repeat=n):
         asg = {c.inputs[j]: vals[digits[j]] for j in range(n)}
+        # "leaves the others undefined": on every other circuit an undefined input is simply not mentioned
+        omit = src.get('vs', 0) % 2 == 1
         for key, fn in (('full', c.evaluate_full_circuit), ('circ', c.evaluate_circuit), ('outs', c.evaluate_circuit_outputs)):
             try:
-                d = fn(dict(asg))
+                d = fn({k_: v_ for k_, v_ in asg.items() if not (omit and digits[c.inputs.index(k_)] == 2)})
             except Exception:
                 d = None
             for l in res[key]:
